@@ -158,13 +158,44 @@ def visit_pairing(repo, rep, rule):
     runner_lines = []
     pfn = w.params[0]
 
+    def may_run(callee, pname, depth=0):
+        """the package function calls its parameter ``pname`` (or hands it to a package function that does)"""
+        if depth > 3:
+            return True
+        for c2 in ast.walk(callee.node):
+            if not isinstance(c2, ast.Call):
+                continue
+            if isinstance(c2.func, ast.Name) and c2.func.id == pname:
+                return True
+            r2 = repo.resolve(callee.module, c2.func.id) if isinstance(c2.func, ast.Name) else None
+            if r2 and r2[0] == 'func':
+                for i2, a2 in enumerate(c2.args):
+                    if isinstance(a2, ast.Name) and a2.id == pname and i2 < len(r2[1].params) and may_run(r2[1], r2[1].params[i2], depth + 1):
+                        return True
+                for k2 in c2.keywords:
+                    if isinstance(k2.value, ast.Name) and k2.value.id == pname and k2.arg in r2[1].params and may_run(r2[1], k2.arg, depth + 1):
+                        return True
+        return False
+
     def transfer_outer(st, state):
         for c in _walk_no_nested(st):
-            if isinstance(c, ast.Call) and (
-                    (isinstance(c.func, ast.Name) and c.func.id == pfn) or
-                    any(isinstance(a, ast.Name) and a.id == pfn for a in c.args) or
-                    any(isinstance(k.value, ast.Name) and k.value.id == pfn for k in c.keywords)):
+            if not isinstance(c, ast.Call):
+                continue
+            if isinstance(c.func, ast.Name) and c.func.id == pfn:
                 runner_lines.append((c, state))
+                continue
+            handed = [('pos', i, a) for i, a in enumerate(c.args) if isinstance(a, ast.Name) and a.id == pfn] + \
+                     [('kw', k.arg, k.value) for k in c.keywords if isinstance(k.value, ast.Name) and k.value.id == pfn]
+            if not handed:
+                continue
+            r = repo.resolve(w.module, c.func.id) if isinstance(c.func, ast.Name) else None
+            if r and r[0] == 'func':
+                # handed to a package function: it runs the printer only if that function (transitively) calls the parameter
+                runs = any((kind == 'pos' and key < len(r[1].params) and may_run(r[1], r[1].params[key])) or
+                           (kind == 'kw' and key in r[1].params and may_run(r[1], key)) for kind, key, _ in handed)
+                if runs:
+                    runner_lines.append((c, state))
+            # handed to something outside the package (inspect.signature, partial): inspecting or wrapping is not running
         return transfer(st, state)
     fl = Flow(transfer_outer, raises)
     out = fl.run(wnode, 0)
